@@ -89,10 +89,11 @@ def pinnedArgSkeleton : List (String × String) := [
   ("Root.addError", "c5f7e10ca815"),
   ("NonNull.CoerceIn", "07c35bfdab4c"),
   ("Root.formArgs", "4ce1628b3fc4"),
-  ("Root.formReflectArgs", "3966a01466f3"),
+  ("Root.formReflectArgs", "d5fdfd091c17"),
   ("Root.replaceArgVars", "8e6170986780"),
-  ("Root.resolveField", "071312e2043a"),
-  ("checkReflectArgs", "a983f6c0bc0d")
+  ("Root.resolveField", "6266357c727f"),
+  ("Root.resolveReflect", "3ca8b8cb64d4"),
+  ("checkReflectArgs", "2fe173b3f604")
 ]
 
 theorem C04_arg_skeleton_pinned : Gen.argSkeleton = pinnedArgSkeleton := by decide
